@@ -59,7 +59,9 @@ def gen(seed: int, i: int, tier: str) -> dict:
     known = rng.sample([1, 2, 3, 9, 100, 254], rng.randint(1, 3))
     unknown = [n for n in (4, 5, 77) if n not in known]
     children = [0, 1, 7]
-    types = [0, 2, 3, 24]
+    # value types deliberately include numbers that mean something else as INTERNAL types (1 time, 2 version,
+    # 3 id request, 6 config, 9 log, 14 gateway ready, 19, 22): command namespaces must not be confused
+    types = rng.sample([0, 1, 2, 3, 6, 9, 14, 19, 22, 24], 4)
     if i % 13 == 0:
         # directed: registry full, version unknown, id request -> TooManyNodes but still a version query
         cfg["pin"] = None
@@ -72,7 +74,7 @@ def gen(seed: int, i: int, tier: str) -> dict:
     for n in known:
         ops.append(["line", f"{n};255;0;0;17;{proto}\n"])
         for c in rng.sample(children, rng.randint(1, 3)):
-            ops.append(["line", f"{n};{c};0;0;3;c\n"])
+            ops.append(["line", f"{n};{c};0;0;{rng.choice([3, 3, 9, 14, 6, 2])};c\n"])
             for t in rng.sample(types, rng.randint(0, 3)):
                 ops.append(["line", f"{n};{c};1;0;{t};{G.payload(rng)}\n"])
     is2x = proto in G.PROTOS_2X
@@ -113,7 +115,7 @@ def gen(seed: int, i: int, tier: str) -> dict:
             t = rng.choice([5, 7, 8, 10, 11, 12, 13, 0, 15, 16, 17, 18, 19, 20, 21, 23, 24, 25, 26, 27, 28, 29, 33, 40])
             body.append(["line", f"{n};255;3;0;{t};{rng.choice(['', '1', '50'])}\n"])
         else:
-            body.append(["line", f"{n};255;4;0;{rng.choice([0, 1, 2, 5, 6])};ab\n"])
+            body.append(["line", f"{n};255;4;0;{rng.choice([0, 1, 2, 5, 6, 9, 14])};ab\n"])
     if at is not None:
         body.insert(min(at, len(body)), ["line", f"0;255;3;0;2;{proto}\n"])
     ops += body
